@@ -685,6 +685,33 @@ def a7(prog, ctx):
     else:
         ctx.fail("A7", "econf_getKeys filters by section equality", (cmp_[0] if cmp_ else k).where,
                  "section filter is %s" % ([render(c) for c in cmp_] or "missing"), key="keys-filter")
+    # which entries are listed is decided by the section alone: nothing else (a hash of the key, a "seen before" table) takes an entry
+    # of the section off the list
+    if len(cmp_) == 1:
+        kcfg = k.cfg
+        lp0 = next((a for a in cmp_[0].ancestors() if a.k in ("ForStmt", "WhileStmt")), None)
+        marks = [st for lhs, rhs, st, kind in query.stores(k) if lp0 is not None and st.within(lp0) and kind in ("++", "=") and (
+            render(lhs) == "tmp" or (lhs.strip().k == "ArraySubscriptExpr" and rhs is not None and rhs.const_value() == 1))]
+        if lp0 is not None and marks:
+            hb0 = kcfg.loop_header(lp0)
+            extra = []
+            for st in marks:
+                for l9 in kcfg.required_literals(kcfg.block_of(st), start=hb0):
+                    if l9 is None or cmp_[0].within(l9.node) or l9.node.within(cmp_[0]) or render(cmp_[0]) in l9.atom:
+                        continue
+                    ct9 = render(lp0.child("cond")) if lp0.child("cond") is not None else ""
+                    if ct9 and (l9.atom in ct9 or ct9 in l9.atom or render(l9.node) in ct9):
+                        continue
+                    extra.append(l9)
+            byname = [l9 for l9 in extra if "strcmp(" in l9.atom and ".key" in l9.atom]
+            if not extra:
+                ctx.ok("A7", "econf_getKeys lists every entry of the section", marks[0].where, "marked / counted behind the section test only")
+            elif len(byname) == len(extra):
+                ctx.inconclusive("A7", "econf_getKeys lists every entry of the section", marks[0].where, "entries are also selected by a comparison of key names (%s)" % byname[0].atom[:60])
+            else:
+                ctx.fail("A7", "econf_getKeys lists every entry of the section", extra[0].node.where,
+                         "whether an entry of the section is listed also depends on `%s`: not a comparison of names - two different keys for which it answers "
+                         "alike (equal hash values) are listed as one, the second key is missing from every listing" % extra[0].atom[:70], key="keys-extra-filter")
     cp = [st for lhs, rhs, st, kind in query.stores(k) if render(lhs).startswith("(*keys)[")]
     if cp and re.match(r"strdup\(kf->file_entry\[[\w$.]+\]\.key\)", render(cp[0].children[1])) and "++" in render(cp[0].children[0]):
         ctx.ok("A7", "econf_getKeys returns the keys in entry order", cp[0].where, render(cp[0]))
@@ -794,7 +821,61 @@ def a10_set_path_keeps_text(prog, ctx):
         ctx.ok("A10", "the set path keeps the whole text", "", "no fixed-size buffer between the setters and the entry")
 
 
+def a11_names_kept(prog, ctx, rule="A11"):
+    """A11: keys and string values are stored letter for letter, so that the lookup by the same name / the read-back compare equal"""
+    common.verbatim_store_rule(prog, ctx, rule, "setKey", "key", 2, "setKey stores the key name as given")
+    common.verbatim_store_rule(prog, ctx, rule, "setStringValueNum", "value", 2, "setStringValueNum stores the text as given")
+
+
+def a12_group_list_intact(prog, ctx):
+    """A12: the section list every listing walks (NULL-terminated, one slot per section) stays inside its allocation when a section is
+    added (= C04.S9 for setGroupList)"""
+    from rules import C04 as _C04
+
+    def s9_all(p9, c9):
+        _C04.s9(p9, c9, set(f9.name for f9 in p9.lib_functions()))
+    n = common.import_obligations(ctx, prog, [s9_all], "A12", "the section list stays intact: ", keep=lambda ob: ob.rule == "S9" and ob.instance.startswith("setGroupList"),
+                                  what="stores into the section list")
+    if n == 0:
+        ctx.inconclusive("A12", "the section list stays intact", "", "no store into the section list found in setGroupList")
+
+
+def a13_creators_agree(prog, ctx):
+    """A13: the two plain creators hand out objects in the same initial state: econf_newIniFile() is econf_newKeyFile() with '=' and
+    '#'.  What matters for the map: both register the section of the group-less keys (initialize() -> setGroupList()), so that a listing
+    of a still empty object answers the same (success, no sections) for both."""
+    from sa import query as _q
+    reach = {}
+    for name in ("econf_newKeyFile", "econf_newIniFile"):
+        if not prog.has_fn(name):
+            ctx.inconclusive("A13", "%s registers the group-less section" % name, "", "anchor vanished")
+            return
+        seen, todo = set(), [name]
+        while todo:
+            x = todo.pop()
+            if x in seen or not prog.has_fn(x):
+                continue
+            seen.add(x)
+            todo += [c.j.get("callee") for c in prog.fn(x).calls() if c.j.get("callee")]
+        reach[name] = seen
+    base = "setGroupList" in reach["econf_newKeyFile"]
+    for name in ("econf_newKeyFile", "econf_newIniFile"):
+        f = prog.fn(name)
+        ctx.touch(f)
+        if "setGroupList" in reach[name]:
+            ctx.ok("A13", "%s registers the group-less section" % name, f.where, "reaches setGroupList() through initialize()")
+        elif base:
+            ctx.fail("A13", "%s registers the group-less section" % name, f.where,
+                     "%s no longer reaches initialize()/setGroupList(), econf_newKeyFile() does: an empty object of this creator has no section registered and "
+                     "econf_getGroups() answers ECONF_NOGROUP where the other creator's object answers success with no sections" % name, key="creator-state:%s" % name)
+        else:
+            ctx.inconclusive("A13", "%s registers the group-less section" % name, f.where, "neither creator reaches setGroupList()")
+
+
 def run(prog, ctx):
+    a11_names_kept(prog, ctx)
+    a12_group_list_intact(prog, ctx)
+    a13_creators_agree(prog, ctx)
     getters, setters, defs = accessors(prog)
     a1(prog, ctx, getters + setters + defs + ["econf_getKeys", "econf_getGroups", "econf_getExtValue"])
     a2(prog, ctx, setters)
